@@ -204,6 +204,8 @@ def _show(n):
         return "%s(%s)" % (_show(n["path"]), _show(n["elems"]))
     if k == "or":
         return " | ".join(_show(c) for c in n["cases"])
+    if k == "exprpat":  # the pattern argument of `matches!(e, P)` (kept as an expression by the parser) in its canonical `match` form
+        return _show(n["e"])
     if k == "wild":
         return "_"
     if k == "rest":
